@@ -2,7 +2,9 @@ import NemoVerif.Models.SerializeRefs
 
 namespace NemoVerif.Refs
 
-theorem agree_cons {H : Nat → Lab} {refs : List Nat} {tbl : List (Nat × Lab)} (h : Agree H refs tbl) (i : Nat) :
+variable {σ τ : Type}
+
+theorem agree_cons {H : Nat → Lab σ τ} {refs : List Nat} {tbl : List (Nat × Lab σ τ)} (h : Agree H refs tbl) (i : Nat) :
     Agree H (i :: refs) ((i, H i) :: tbl) := by
   intro j
   by_cases e : j = i
@@ -13,7 +15,7 @@ theorem agree_cons {H : Nat → Lab} {refs : List Nat} {tbl : List (Nat × Lab)}
     simpa [lookup] using this
 
 mutual
-theorem roundtrip (H : Nat → Lab) : (t : Lab) → (refs : List Nat) → (tbl : List (Nat × Lab)) →
+theorem roundtrip (H : Nat → Lab σ τ) : (t : Lab σ τ) → (refs : List Nat) → (tbl : List (Nat × Lab σ τ)) →
     Consistent H t → Agree H refs tbl →
     ∃ tbl', decodeS tbl (encodeS refs t).1 = some (t, tbl') ∧ Agree H (encodeS refs t).2 tbl'
   | .leaf a, refs, tbl, _, ha => ⟨tbl, by simp [encodeS, decodeS], by simpa [encodeS] using ha⟩
@@ -32,7 +34,7 @@ theorem roundtrip (H : Nat → Lab) : (t : Lab) → (refs : List Nat) → (tbl :
       refine ⟨(i, .node i t kids) :: tbl', by simp [encodeS, hi', decodeS, h1], ?_⟩
       have := agree_cons h2 i
       simpa [encodeS, hi', hc.1] using this
-theorem roundtrip_list (H : Nat → Lab) : (xs : List Lab) → (refs : List Nat) → (tbl : List (Nat × Lab)) →
+theorem roundtrip_list (H : Nat → Lab σ τ) : (xs : List (Lab σ τ)) → (refs : List Nat) → (tbl : List (Nat × Lab σ τ)) →
     ConsistentList H xs → Agree H refs tbl →
     ∃ tbl', decodeSList tbl (encodeSList refs xs).1 = some (xs, tbl') ∧ Agree H (encodeSList refs xs).2 tbl'
   | [], refs, tbl, _, ha => ⟨tbl, by simp [encodeSList, decodeSList], by simpa [encodeSList] using ha⟩
